@@ -1,4 +1,4 @@
-import ClusterVerif.Model.C17
+import ClusterVerif.Model.C17Shutdown
 
 /-!
 C17 — departure of a peer (cluster.go: `PeerRemove`, `watchPeers`, `ready`, `NewCluster`, `Shutdown`). Core Lean only.
@@ -55,6 +55,7 @@ inductive DEv where
   | tick (peersOk : Bool) (sPeersOk sRmOk : Bool)  -- one `watchPeers` round (`consensus.Peers` answered?)
   | stop (peersOk rmOk : Bool)           -- the operator (signal, API) calls `Shutdown`; leaves when configured
   | write (snap : Bool)                  -- consensus writes its folder (log entries; a snapshot or not)
+  | restart                              -- the operator starts the peer again on its identity and folders
   deriving DecidableEq, Repr
 
 structure PSt where
@@ -63,11 +64,12 @@ structure PSt where
   acts : List Act    -- what its `Shutdown`s did, in order
   disk : Disk
   outside : Bool     -- the history left what the property speaks of (see `depStep`)
+  consult : Bool     -- configuration of the machine: `Shutdown` looks at `consensus.Peers` itself (`effectsConsult`)
   deriving DecidableEq, Repr
 
-/-- run `Cluster.Shutdown` (`shutdownActs`) on the state: a successful leave ends the membership, `Clean` rotates the folder -/
+/-- run `Cluster.Shutdown` (`shutdownActsC`, the closed form of the interpreted `Gen.shutdownEffects`) on the state: a successful leave ends the membership, `Clean` rotates the folder -/
 def doShutdown (keep : Nat) (slash : Bool) (st : PSt) (peersOk rmOk : Bool) : PSt :=
-  let r := shutdownActs st.f peersOk rmOk
+  let r := shutdownActsC st.consult st.f st.member peersOk rmOk
   { st with
     f := r.1
     member := st.member && !(r.2.contains .rmSelf && rmOk)
@@ -81,9 +83,9 @@ def fire (sites : List Site) (keep : Nat) (slash : Bool) (t : Trig) (st : PSt) (
   else doShutdown keep slash { st with f := { st.f with removed := st.f.removed || hit.all (·.flagged) } } peersOk rmOk
 
 /-- One event. A stopped peer does nothing any more. Two situations are marked `outside`: the operator stops a peer
-    that has been removed by somebody else BEFORE its next `watchPeers` round, and a peer removed while it is down —
-    in both the code keeps the data (witnesses in Props); the property's "removed peer" is one that is running and is
-    given its watch round. -/
+    that has been removed by somebody else BEFORE its next `watchPeers` round (unless `Shutdown` itself consults the
+    peerset and gets an answer: `consult`), and a peer removed while it is down — in both the code keeps the data
+    (witnesses in Props; reproduced on real peers by suite `depart`). -/
 def depStep (sites : List Site) (keep : Nat) (slash : Bool) (st : PSt) : DEv → PSt
   | .removedByOther =>
       if st.f.shutdown then { st with member := false, outside := st.outside || st.member } else { st with member := false }
@@ -95,17 +97,27 @@ def depStep (sites : List Site) (keep : Nat) (slash : Bool) (st : PSt) : DEv →
       else fire sites keep slash .absent st p r
   | .stop p r =>
       if st.f.shutdown then st
-      else doShutdown keep slash { st with outside := st.outside || !st.member } p r
+      else doShutdown keep slash { st with outside := st.outside || (!st.member && !(st.consult && p)) } p r
   | .write sn =>
       if st.f.shutdown then st else { st with disk := { st.disk with data := true, snap := sn } }
+  | .restart =>
+      -- nothing to restart from (the folder was discarded: the peer has to join afresh), or still running
+      if !st.f.shutdown || !st.disk.data then st
+      -- a member comes back on its old configuration and becomes ready again
+      else if st.member then { st with f := { st.f with shutdown := false, removed := false } }
+      -- removed while down (or stopped before its watch round): it comes up on its OLD configuration, nobody
+      -- votes for it or sends it entries, `ready()` gives up (`startup` site: `Shutdown` with ready = false,
+      -- hence no `Clean`) and it is stopped again, with its data
+      else { st with acts := st.acts ++ [.consShutdown, .done] }
 
 def depRun (sites : List Site) (keep : Nat) (slash : Bool) (st : PSt) (evs : List DEv) : PSt :=
   evs.foldl (depStep sites keep slash) st
 
 /-- a ready, running member with data -/
-def freshPeer (leave : Bool) (backups : Nat) : PSt :=
+def freshPeer (leave : Bool) (backups : Nat) (consult : Bool := false) : PSt :=
   { f := { ready := true, removed := false, leaveOnShutdown := leave, shutdown := false },
-    member := true, acts := [], disk := { data := true, snap := false, backups := backups }, outside := false }
+    member := true, acts := [], disk := { data := true, snap := false, backups := backups }, outside := false,
+    consult := consult }
 
 /-- the property on the final state: a peer that is no member any more and has stopped holds no consensus data -/
 def departedClean (st : PSt) : Bool := !(st.f.shutdown && !st.member) || !st.disk.data
